@@ -57,6 +57,10 @@ def mon_damage(tr, sc):
                         out.append(("unreported:" + key_kind(k),
                                     "AdoptSession gave no warning for the damaged %s record %#x" % (key_kind(k), k)))
             corrupt = []
+            if adopted and any(l.startswith("ev delfail") for l in lines):
+                # the Persistence refused to delete the damaged record (a store fault on top of the damage, outside the property's
+                # quantifier): AdoptSession says so ("kept"), and the record is still there for whoever loads it
+                adopted = False
         elif adopted:
             for l in lines:
                 p = l.split()
